@@ -1,6 +1,7 @@
 import Huginn.Drv.Proto
 import Huginn.Spec.SigText
 import Huginn.Gen.Bundled
+import Huginn.Gen.BundledChars
 namespace Huginn.Drv.C06
 open Huginn.Drv Huginn.Sig Huginn.SigText Huginn.SigText.Spec
 
@@ -180,11 +181,14 @@ def httpParse (impl : String) : P Verdict := do
   pure { modelEq := impl == model, specOk := none, kf := [], tag := tag, model := model, spec := "-" }
 
 /-- `C06.line <lineNo> <section> <text>` — one `sig =` line of the bundled p0f.fp: `from_str` then
-`to_string`.  The line must be the one the extractor put into `Gen.Bundled.sigLines`. -/
+`to_string`.  The line must be the one the extractor put into `Gen.Bundled.sigLines` and
+`Gen.BundledChars`. -/
 def bundledLine (impl : String) : P Verdict := do
   let no ← nat; let sec ← tok; let t ← utext
   if !(Gen.Bundled.sigLines.contains (no, sec, String.ofList t)) then failure
   let isTcp := sec.startsWith "tcp"
+  -- the character-list copy the theorems `bundled_roundtrip_*` quantify over has this line too
+  if !((if isTcp then Gen.BundledChars.tcpSigs else Gen.BundledChars.httpSigs).contains t) then failure
   let model :=
     if isTcp then match parseTcpSigFull t with | some v => hexText (printTcpSig v) | none => "err"
     else match parseHttpSigFullL t with | some v => hexText (printHttpSigL v) | none => "err"
